@@ -130,10 +130,22 @@ FullOK(f, len, m, gz, o) ==
 PartOK(f, len, a, b, m, o) == /\ o.status = 206 /\ o.cl = b - a + 1 /\ o.cr = CRange(a, b, len) /\ o.enc = ""
                               /\ o.runs = IF m = "HEAD" THEN << >> ELSE Slice(f, a, b)
 UnsatOK(o)    == o.status = 416 /\ NoFileBytes(o.runs)
+NotModOK(o)   == o.status = 304 /\ o.runs = << >> /\ o.wlen = 0          \* 304 never carries a body
+
+(* If-Modified-Since: relation of the date sent to the modification time of the file ("" = header not sent).  *)
+(* before / bad (unparsable: ignored): the normal answer is due.  equal / after: 304 without body, or the     *)
+(* normal answer (RFC 7232 3.3: SHOULD) -- nothing else, in particular never a 200 without the file.          *)
+MTime == "Thu, 02 Jan 2020 03:04:05 GMT"
+ImsKinds == {"", "before", "equal", "after", "bad"}
+ImsStr(k) == CASE k = "before" -> "Wed, 01 Jan 2020 00:00:00 GMT"
+               [] k = "equal"  -> MTime
+               [] k = "after"  -> "Fri, 01 Jan 2021 00:00:00 GMT"
+               [] k = "bad"    -> "yesterday"
+               [] OTHER        -> ""
 NotFoundOK(o) == o.status = 404 /\ NoFileBytes(o.runs)
 
 (* file f of length len is the target; abr = FS.AcceptByteRange, co = FS.Compress, ae = "Accept-Encoding: gzip" sent *)
-FileOblig(f, len, abr, co, ae, m, r, o) ==
+FileOblig(f, len, abr, co, ae, ims, m, r, o) ==
     LET sem == IF abr THEN RangeSem(r, len) ELSE Full
         gz  == co /\ ae /\ r.kind \in {"none", "empty"} IN
     \/ sem.t = "full"    /\ FullOK(f, len, m, gz, o)
@@ -142,19 +154,20 @@ FileOblig(f, len, abr, co, ae, m, r, o) ==
     \/ sem.t = "invalid" /\ (FullOK(f, len, m, gz, o) \/ UnsatOK(o))
     \/ abr /\ Overflowing(r) /\ (FullOK(f, len, m, gz, o) \/ UnsatOK(o))
     \/ abr /\ r.kind = "-n" /\ len = 0 /\ FullOK(f, len, m, gz, o)
+    \/ ims \in {"equal", "after"} /\ NotModOK(o)
 
 (* files: function name -> length of the files under the root; tgt: a file name, "none" (plain path of a    *)
 (* file that does not exist), "dir" (a directory) or "any" (non-plain path).  For "dir" and "any" the answer   *)
 (* is free as long as it carries no file byte; if it carries file bytes (or is a 200/206 without body) it    *)
 (* must be a correct answer for SOME file under the root (index file, file the path normalises to).          *)
-Oblig(files, abr, co, ae, tgt, m, r, o) ==
+Oblig(files, abr, co, ae, ims, tgt, m, r, o) ==
     /\ ~o.leak
     /\ \A i \in DOMAIN o.runs : o.runs[i].f \in DOMAIN files \cup {"?"}          \* never a byte from outside the root
     /\ CASE tgt \in {"dir", "any"} -> \/ /\ NoFileBytes(o.runs)          \* 4xx, generated index page, redirect, ...
                                           /\ o.status \in {200, 206} /\ m = "GET" => o.cl = o.wlen       \* CL = body bytes
-                                       \/ \E f \in DOMAIN files : FileOblig(f, files[f], abr, co, ae, m, r, o)   \* index file / normalised path
+                                       \/ \E f \in DOMAIN files : FileOblig(f, files[f], abr, co, ae, ims, m, r, o)   \* index file / normalised path
          [] tgt = "none" -> NotFoundOK(o)
-         [] OTHER        -> tgt \in DOMAIN files /\ FileOblig(tgt, files[tgt], abr, co, ae, m, r, o)
+         [] OTHER        -> tgt \in DOMAIN files /\ FileOblig(tgt, files[tgt], abr, co, ae, ims, m, r, o)
 
 (* repeated requests: same path, Range and Accept-Encoding => same status / Content-Length / Content-Range / Content-Encoding, *)
 (* same body for the same method *)
@@ -272,7 +285,7 @@ TypeOK == /\ pc \in {"idle", "lookup", "reader", "range", "respond", "stream", "
           /\ cache \subseteq DOMAIN files /\ nreq \in 0 .. MaxReqs
           /\ rd.k \in {"none", "small", "big"}
 (* the response of the design meets the obligation *)
-RespOK == pc = "done" => Oblig(files, abr, FALSE, FALSE, req.tgt, req.method, req.range, out)
+RespOK == pc = "done" => Oblig(files, abr, FALSE, FALSE, "", req.tgt, req.method, req.range, out)
 (* Content-Length = number of body bytes (GET); 206 window inside the file, b - a + 1 bytes *)
 LengthOK == pc = "done" /\ out.status \in {200, 206} /\ req.method = "GET" => out.cl = BodyLen(out.runs)
 WindowOK == pc \in {"respond", "stream"} /\ out.status = 206 =>
